@@ -150,6 +150,17 @@ claim("C29",
   TB + "Partial: the theorem is thin and excludes 0-d sources; the monitor carries the weight and is bounded by its generator. Four known findings listed.",
   "DESIGN.md §4 C29")
 
+claim("C02",
+  "Lean 4 soundness theorems for 19 rewrite rules on the expression mini-language + congruence/fixpoint theorems (optimize sound for any rule sequence) + correspondence: every traced real rewrite (before/after objects exported) must be den-equal for the model (ru.equiv), instances of proved rules counted + real-code search (4 phase forms vs NumPy, fused vs lowered blocks, every fired rewrite computed on both sides, rule-directed chains, sliding-window kernel substitution)",
+  "C02_rule_sound_<rule> for slice-slice fusion, identity-slice removal, slice through elemwise/transpose/expand_dims/squeeze/reductions/concatenate, rechunk no-op / rechunk-rechunk / through elemwise, transpose, expand_dims / into a source; C02_step_sound, C02_any_sequence, C02_optimize_sound and C02_optimize_compute (with C01) for every well-formed expression. Rules outside the model (slice through broadcast_to / generic Blockwise, rechunk through concatenate, rechunk-slice, lowering, fusion) are covered by the search only.",
+  TB + "The tie is ru.equiv on exported real rewrites; coverage and measure are evidence only. Known findings: swv-layout-drift, take-through-broadcast, slice-through-generic-blockwise.",
+  "DESIGN.md §4 C02")
+claim("C08",
+  "optimize defined in Lean by well-founded recursion on an explicit measure (accepted only with the decrease proof for every rule) + idempotence / normal-form / WF-preservation theorems + correspondence (ru.equiv on traced rewrites, model optimizer round trip) + search (watchdog, re-optimization names, simplify/lower idempotence, optimized vs unoptimized compute)",
+  "C08_rule_decreases / C08_step_decreases (17 rules), C08_optimize_normal, C08_optimize_idempotent, C08_no_new_errors, C08_optimized_computes. Partial: unmodelled rules, sharing gates and lowering are covered by the search only.",
+  TB + "The real optimizer's termination argument differs for rules the model represents differently, so measure non-decrease on real instances is evidence only. Known finding: optimize-not-idempotent:FromArray._simplify_up.",
+  "DESIGN.md §4 C08")
+
 
 def build():
     props = [json.loads(l) for l in (VERIF / "properties.jsonl").read_text().splitlines() if l.strip()]
